@@ -51,6 +51,38 @@ pub(crate) enum FlagsState {
     AbsoluteY(String),
 }
 
+/// Verification hook H3 (cfg cc6502_verif_flags; off unless a harness enables the log): each time the generator relies
+/// on its belief about the processor flags (the compare with zero is skipped), the belief and the code emitted so far
+/// for the current function are recorded.
+#[cfg(cc6502_verif_flags)]
+pub mod verif_flags {
+    use std::cell::RefCell;
+    #[derive(Debug, Clone)]
+    pub struct Use {
+        pub function: String,
+        pub belief: String,
+        pub code: Vec<(&'static str, String, String)>,
+    }
+    thread_local! { pub static LOG: RefCell<Option<Vec<Use>>> = RefCell::new(None); }
+}
+
+#[cfg(cc6502_verif_flags)]
+impl<'a> GeneratorState<'a> {
+    pub(crate) fn verif_flags_use(&self) {
+        verif_flags::LOG.with(|l| {
+            if let (Some(v), Some(f)) = (l.borrow_mut().as_mut(), &self.current_function) {
+                if let Some(code) = self.functions_code.get(f) {
+                    v.push(verif_flags::Use {
+                        function: f.clone(),
+                        belief: format!("{:?}", self.flags),
+                        code: code.verif_lines().into_iter().map(|l| (l.0, l.1, l.2)).collect(),
+                    });
+                }
+            }
+        });
+    }
+}
+
 pub struct GeneratorState<'a> {
     compiler_state: &'a CompilerState<'a>,
     insert_code: bool,
